@@ -33,6 +33,7 @@ ALPHA = {
     'traverse': 1, 'declare': 1, 'find_or_add': 1,
 }
 
+
 # fixed-argument alphabet for the exhaustive part (2 variables a, b)
 LETTERS = [
     ['build', 0b0110, 0, 1],      # a xor b, kept
@@ -44,8 +45,8 @@ LETTERS = [
     ['decref', 0],
     ['drop', 0],
     ['drop', 1],
-    ['gc'],
-    ['gc_roots', 0b1010],
+    ['gc', 0],
+    ['gc_roots', 0b1010, 1],
     ['swap', 0, 0],
 ]
 
@@ -57,7 +58,12 @@ def nontrivial(w):
 def plan(tier, seed):
     cfgs = [dict(kind='bdd', nmax=4, init_vars=2),
             dict(kind='bdd', nmax=5, init_vars=3),
-            dict(kind='bdd', nmax=3, init_vars=2)]
+            dict(kind='bdd', nmax=3, init_vars=2),
+            # reorderings also happen dynamically (lowered threshold)
+            dict(kind='bdd', nmax=5, init_vars=4, reordering=True,
+                 reorder_starts=4),
+            dict(kind='bdd', nmax=4, init_vars=3, reordering=True,
+                 reorder_starts=2)]
     specs = []
     k = 16 if tier == 'thorough' else 12
     for s in range(k):
